@@ -109,7 +109,7 @@ const (
 )
 
 var (
-	c12DictOnce                sync.Once
+	c12DictOnce               sync.Once
 	c12ChordFile, c12AttrFile string
 )
 
